@@ -398,6 +398,58 @@ std::vector<std::tuple<int, int, double>> gen_sparse(Rng& g, int n)
     return tr;
 }
 
+// A matrix "of the same shape" as an existing one: same size, same number of entries per row and triangle, but another
+// in-row order, one entry moved inside its triangle, and new values.  Assigning between such siblings is where an
+// assignment that re-uses the target's index arrays "because the sizes agree" goes wrong.
+std::vector<std::tuple<int, int, double>> sibling_sparse(Rng& g, int n, const std::vector<std::tuple<int, int, double>>& tr)
+{
+    std::vector<std::vector<std::pair<int, double>>> rows(n);
+    for (auto& t : tr)
+        rows[std::get<0>(t)].push_back({std::get<1>(t), std::get<2>(t)});
+    const int variant = (int)g.below(3); // 0: in-row order, 1: + one entry moved, 2: + mirrored columns
+    std::vector<std::tuple<int, int, double>> out;
+    for (int i = 0; i < n; i++) {
+        auto row = rows[i];
+        if (variant == 2)
+            for (auto& e : row)
+                if (e.first != i) {
+                    // reflect the column about the diagonal inside its triangle where possible
+                    int c = e.first < i ? (i - 1) - e.first : (n - 1) - (e.first - (i + 1));
+                    bool used = false;
+                    for (auto& o : row)
+                        used = used || (o.first == c && &o != &e);
+                    if (!used)
+                        e.first = c;
+                }
+        if (variant >= 1 && row.size() >= 2 && g.chance(0.5)) {
+            auto& e = row[g.below(row.size())];
+            if (e.first != i) {
+                int lo = e.first < i ? 0 : i + 1, hi = e.first < i ? i - 1 : n - 1;
+                int c  = lo + (int)g.below((uint64_t)(hi - lo + 1));
+                bool used = false;
+                for (auto& o : row)
+                    used = used || o.first == c;
+                if (!used)
+                    e.first = c;
+            }
+        }
+        double off = 0;
+        for (auto& e : row)
+            if (e.first != i) {
+                e.second = e.second == 0.0 ? 0.0 : g.uniform(-1, 1);
+                off += std::fabs(e.second);
+            }
+        for (auto& e : row)
+            if (e.first == i)
+                e.second = off + g.uniform(0.5, 2.0);
+        for (int q = (int)row.size() - 1; q > 0; q--)
+            std::swap(row[q], row[g.below((uint64_t)q + 1)]);
+        for (auto& e : row)
+            out.push_back({i, e.first, e.second});
+    }
+    return out;
+}
+
 Dense dense_of(const std::vector<std::tuple<int, int, double>>& tr, int n)
 {
     Dense A((size_t)n * n, 0.0L);
@@ -412,9 +464,14 @@ struct Pool {
     std::string hist;
 };
 
-void construct(Slot& s, int kind, int n, uint64_t seed)
+void construct(Slot& s, int kind, int n, uint64_t seed, const std::vector<std::tuple<int, int, double>>* like = nullptr)
 {
     Rng g(sim::mix(seed, 77));
+    std::vector<std::tuple<int, int, double>> like_copy;
+    if (like) {
+        like_copy = sibling_sparse(g, n, *like); // before s.reset(): `like` may live in s
+        like      = &like_copy;
+    }
     s.reset();
     s.kind    = kind;
     Model& md = s.md;
@@ -429,19 +486,19 @@ void construct(Slot& s, int kind, int n, uint64_t seed)
         break;
     }
     case K_COO: {
-        md.trip = gen_sparse(g, n);
+        md.trip = like ? *like : gen_sparse(g, n);
         s.coo   = std::make_unique<SparseMatrixCOO<double>>(n, n, md.trip);
         md.symmetric = g.chance(0.3);
         s.coo->is_symmetric(md.symmetric);
         break;
     }
     case K_CSR: {
-        md.trip = gen_sparse(g, n);
+        md.trip = like ? *like : gen_sparse(g, n);
         s.csr   = std::make_unique<SparseMatrixCSR<double>>(n, n, md.trip);
         break;
     }
     case K_LU: {
-        md.trip = gen_sparse(g, n);
+        md.trip = like ? *like : gen_sparse(g, n);
         SparseMatrixCSR<double> A(n, n, md.trip);
         s.lu  = std::make_unique<SparseLUSolver<double>>(A);
         md.A  = dense_of(md.trip, n);
@@ -627,6 +684,27 @@ Value gen_pool(uint64_t seed, const std::string& tier)
         op["n"]    = g.range(2, g.chance(0.1) ? 300 : 24);
         op["seed"] = (long long)(g.next() >> 1);
         op["alloc_fail"] = (callers == 1 && g.chance(0.06)) ? g.range(1, 3) : 0;
+        if (g.chance(0.12) && op.at("dst").as_int(0) != op.at("src").as_int(0)) {
+            // sibling pair: construct dst like src, maybe use it, then assign one over the other
+            op["op"]         = "construct_sibling";
+            op["alloc_fail"] = 0;
+            ops.push(op);
+            if (g.chance(0.5)) {
+                Value u  = op;
+                u["op"]  = "solve";
+                u["src"] = op.at("dst");
+                ops.push(u);
+            }
+            Value a = op;
+            a["op"] = g.chance(0.75) ? "copy_assign" : "move_assign";
+            if (g.chance(0.5)) {
+                a["dst"] = op.at("src");
+                a["src"] = op.at("dst");
+            }
+            a["seed"] = (long long)(g.next() >> 1);
+            ops.push(a);
+            continue;
+        }
         ops.push(op);
     }
     p["ops"] = ops;
@@ -655,6 +733,19 @@ void exec_owner(Pool& pool, const Value& plan, int owner, int callers)
         const bool src_ok = src.exists() && src.md.live && !src.md.moved_from && !src.md.defaulted;
         if (nm == "construct") {
             construct(dst, (int)op.at("kind").as_int(0), (int)op.at("n").as_int(2), seed);
+        }
+        else if (nm == "construct_sibling") {
+            // a second object of the same kind, size and shape as src (see sibling_sparse)
+            if (!src_ok || &src == &dst)
+                continue;
+            const bool sparse = src.kind == K_COO || src.kind == K_CSR || src.kind == K_LU;
+            const int kind = src.kind, n = src.kind == K_TRI ? src.md.tri.n : src.md.n;
+            if (sparse) {
+                auto trip = src.md.trip;
+                construct(dst, kind, n, seed, &trip);
+            }
+            else
+                construct(dst, kind, n, seed);
         }
         else if (nm == "copy_default") {
             // copy of a default-constructed object must be a valid (empty) object
